@@ -115,7 +115,13 @@ func readerProgram(r *Rng, meta GraphMeta, d Dialect, n int) []string {
 			from = meta.Funcs
 		}
 		add("%s = M.get(%q)\n", x, pick(from))
-		switch r.Intn(35) {
+		switch r.Intn(37) {
+		case 35, 36:
+			// call a shared function and KEEP what it returns (a closure minted by a
+			// frozen closure shares that closure's cells): frozen at this module's end
+			k := fresh("kp")
+			add("def %s(f):\n    r = f()\n    own[%q] = r\n    own[%q] = r() if type(r) == \"function\" else None\n", k, k, k+"_2")
+			add("attempt(%s, %s)\n", k, x)
 		case 32, 33, 34:
 			// look every key of the shared table up again (by index, get, in)
 			add("attempt(lambda: probe([%s[k] for k in %s][:4], [%s.get(k) for k in list(%s)][-3:], [k in %s for k in list(%s)][:6]))\n", x, x, x, x, x, x)
